@@ -275,6 +275,8 @@ pub struct World<'a> {
     pub c18_done: bool,
     pub oversize_done: bool,
     pub c18_busy: bool,
+    pub c18_gap: bool,
+    pub c18_gap_taken_for: Option<u64>,
     /// Keep-alive in force on the current connection (CONNECT value, or the
     /// server keep-alive of the CONNACK), in ms.
     pub k_eff_ms: Option<u64>,
@@ -1199,7 +1201,15 @@ impl<'a> World<'a> {
                     }),
                     PingMode::Delayed => {
                         let k = self.k_eff_ms.unwrap_or(self.cfg.keep_alive_s * 1000).max(1000);
-                        let d = if self.c18_busy {
+                        let d = if self.c18_gap {
+                            // (up to K - 50 ms: in time, also for an interval that starts
+                            // with a late ping)
+                            match self.ch.pick(3) {
+                                0 => 0,
+                                1 => k - 50,
+                                _ => self.ch.pick((k - 50) as u32) as u64,
+                            }
+                        } else if self.c18_busy {
                             // (the script gets its turn only between the polls
                             // of the slow user loop)
                             self.ch.pick((k / 2) as u32) as u64
@@ -1557,6 +1567,9 @@ impl<'a> World<'a> {
         }
         if self.is(P::C18) {
             upd(self.end_ms);
+            if let Some(t) = self.c18_gap_due() {
+                upd(t);
+            }
         }
         best
     }
@@ -2023,6 +2036,9 @@ pub async fn simulate(w: &mut World<'_>, mut el: Loop) {
                 if let Some(d) = w.c18_busy_pause() {
                     tokio::time::sleep(d).await;
                 }
+                if let Some(d) = w.c18_gap_pause() {
+                    tokio::time::sleep(d).await;
+                }
                 if w.viol.is_some() || w.run_over(&mut idle_polls) {
                     break 'outer;
                 }
@@ -2130,6 +2146,8 @@ impl<'a> World<'a> {
             c18_done: false,
             oversize_done: false,
             c18_busy: false,
+            c18_gap: false,
+            c18_gap_taken_for: None,
             k_eff_ms: None,
             c18_second_life: false,
             c18_break_at_ms: None,
